@@ -773,7 +773,7 @@ def lower_argaccess(R):
 # ---------------------------------------------------------------------------
 # rewrite pass and grammar actions (C01.rewrite / C01.parse / C16.parse)
 
-@family("FRONT.rewrite", props=["C01", "C08"], functions=["nsl.passes.RewriteAssignEqualOperations::RewriteAssignEqualVisitor.v_AssignmentExpression"])
+@family("FRONT.rewrite", props=["C01", "C08", "C20"], functions=["nsl.passes.RewriteAssignEqualOperations::RewriteAssignEqualVisitor.v_AssignmentExpression"])
 def front_rewrite(R):
     """`x op= e` becomes `x = x op e` with the operator of that spelling; `x = e` is returned unchanged."""
     a = ag.A()
@@ -795,6 +795,45 @@ def front_rewrite(R):
             lab = aop if (ll, rl) == ("opaque", "opaque") else f"{aop},left={ll},right={rl}"
             R.check(f"FRONT.rewrite[{lab}]", "nsl.passes.RewriteAssignEqualOperations::RewriteAssignEqualVisitor.v_AssignmentExpression", ok,
                     detail=f"`l {aop} r` must become `l = (l {bop} r)` with r kept as one operand; rewritten to {res} (raised {step.raised!r})")
+    # ranges: the pass runs BEFORE update-locations, so operands may or may not have a known range yet.  Whatever range the new node gets is the
+    # explicit unknown, or a range that starts at a text offset (>= 0), covers the operands whose range is known and stays inside the range of
+    # the node it replaces (C20: a reported range designates text)
+    for lk, rk, nk in itertools.product((False, True), repeat=3):
+        l, r = a.PrimaryExpression("l"), a.BinaryExpression(op.Operation.MUL, a.PrimaryExpression("p"), a.PrimaryExpression("q"))
+        n = a.AssignmentExpression(l, r, operation=op.Operation.ASSIGN_ADD_EQUAL)
+        if lk:
+            l.SetLocation(a.Location((10, 11)))
+        if rk:
+            r.SetLocation(a.Location((15, 20)))
+        if nk:
+            n.SetLocation(a.Location((10, 20)))
+        step = ag.visitor_step(cls(), n, None)
+        res = step.result
+        loc = res.GetLocation() if step.raised is None and res is not None else None
+        known = [x for x, k in ((l, lk), (r, rk)) if k]
+        ok = loc is not None and (loc.IsUnknown or (0 <= loc.GetBegin() <= loc.GetEnd() and all(loc.GetBegin() <= x.GetLocation().GetBegin() and x.GetLocation().GetEnd() <= loc.GetEnd() for x in known)
+                                                  and (not nk or (10 <= loc.GetBegin() and loc.GetEnd() <= 20))))
+        R.check(f"FRONT.rewrite.range[left {'known' if lk else 'unknown'},right {'known' if rk else 'unknown'},node {'known' if nk else 'unknown'}]",
+                "nsl.passes.RewriteAssignEqualOperations::RewriteAssignEqualVisitor.v_AssignmentExpression", ok,
+                detail=f"the rewritten node has the range ({loc.GetBegin()}, {loc.GetEnd()})" if loc is not None else f"raised {step.raised!r}",
+                replay=script("""
+                    import io, contextlib
+                    from nsl import parser
+                    from nsl.passes import UpdateLocations, RewriteAssignEqualOperations
+                    src = 'export function f(int a, int b) -> int {\\n int x = a;\\n x += (a * b);\\n return x; }'
+                    with contextlib.redirect_stdout(io.StringIO()):
+                        tree = parser.NslParser().Parse(src)
+                        RewriteAssignEqualOperations.GetPass().Process(tree)
+                        UpdateLocations.GetPass().Process(tree)
+                    bad = []
+                    def walk(n):
+                        l = n.GetLocation()
+                        if not l.IsUnknown and not (0 <= l.GetBegin() <= l.GetEnd() <= len(src)): bad.append((type(n).__name__, l.GetBegin(), l.GetEnd()))
+                        n.ForEachChild(lambda c, ctx: walk(c))
+                    walk(tree)
+                    print(bad[:4])
+                    if bad: print('REPLAY-CONFIRMED')
+                    """))
     l, r = ag.E("l"), ag.E("r")
     n = a.AssignmentExpression(l, r)
     res = cls().v_Generic(n, None)
